@@ -67,6 +67,9 @@ struct Setup {
 }
 
 pub fn c05_encrypt(ctx: &Ctx, out: &mut RunOut) -> Result<(), Violation> {
+    for k in ["save-load-leg", "auto-decrypted-on-load", "decrypt-with-owner-pw", "wrong-password-rejected", "crypt-filter-override", "metadata-stream", "state-rejected-input"] {
+        ctx.count_n(k, 0); // registered so that a probe that never fires shows up as zero in the evidence
+    }
     ctx.set_rng_mode(RNG_MODES[ctx.draw(R, RNG_MODES.len() as u64, "rng-mode") as usize]);
     // ---- workload: document
     let mut cfg = gen::draw_cfg(ctx);
